@@ -360,6 +360,11 @@ inline int engine_main(int argc, char** argv, Engine& eng)
 		for (int k = 0; k < sh->ntrace; ++k) r_trace.push_back(std::make_pair(sh->trace[2 * k], sh->trace[2 * k + 1]));
 		if (!sh->in_case && sh->ordinal == 0) { /* died between cases at the start of a unit: skip the unit */ r_ordinal = ~0ull >> 1; }
 	}
+	for (auto const& n : P.notes) if (n == "dump_states" && !args.out.empty()) {
+		// workers may reach the same state through different partitions: let the driver take the union
+		FILE* f = std::fopen((args.out + ".states").c_str(), "wb");
+		if (f) { for (auto h : P.states) std::fwrite(&h, sizeof h, 1, f); std::fclose(f); }
+	}
 	P.write(args.out);
 	return 0;
 }
